@@ -38,10 +38,12 @@ package labels
 //@   loop 1 invariant rangeindex < len(ms) && (forall k int :: 0 <= k && k <= rangeindex ==> !deref(ms[k]).Matches(lset))
 
 //@ func NewMatcher
-//@   props C16 C07
+//@   props C16 C07 C11 C02 C12
 //@   ensures [fields] result1 == nil ==> result0 != nil && fresh(result0) && result0.Type == t && result0.Name == n && result0.Value == v
 //@   ensures [regexp-compiled] result1 == nil && (t == MatchRegexp || t == MatchNotRegexp) ==> result0.re != nil
 //@   ensures [error-means-nothing] result1 != nil ==> result0 == nil
+//@   ensures [only-a-pattern-that-does-not-compile-is-refused] result1 != nil ==> called("regexp.Compile") && ret1("regexp.Compile") != nil && result1 == ret1("regexp.Compile")
+//@   ensures [equality-matchers-are-always-accepted] (t == MatchEqual || t == MatchNotEqual) ==> result1 == nil
 //@   after call regexp.Compile assume (res1 == nil) == (res0 != nil)
 //@   at call regexp.Compile assert [the-whole-value-must-match] arg0 == "^(?:" + v + ")$"
 //@   assigns nothing
